@@ -67,6 +67,12 @@ def gen_population(rng, npop, dim):
     e0 = rng.choice([0.0, 1.0, -2.0, 1e3]) * rng.uniform(0.5, 1.5)
     es = rng.choice([0.0, 1e-9, 1e-5, 1e-3, 1.0])
     ene = [e0] + [e0 + es * rng.random() for _ in range(npop - 1)]
+    if npop > 1 and rng.random() < 0.35:
+        # a single outlying member decides the population-based conditions: it may be any member, also the second or the last one
+        j = rng.choice([1, npop - 1, rng.randrange(1, npop)])
+        big = rng.choice([1e-5, 1e-3, 0.1, 3.0])
+        pop[j] = [b + big * rng.choice([-1, 1]) for b in base]
+        ene[rng.choice([1, npop - 1, j])] = e0 + big * rng.choice([1.0, 10.0])
     return pop, ene
 
 
@@ -190,7 +196,7 @@ DEFAULTS = {'VTR': {'tolerance': 0.005, 'target': 0.0}, 'ChangeOverGeneration': 
             'GradientNormTolerance': {'tolerance': 1e-5, 'norm': float('inf')}, 'EvaluationLimits': {'generations': None, 'evaluations': None}}
 
 
-def with_defaults(rng, name, kw):
+def with_defaults(rng, name, kw, view=None):
     """sometimes leave arguments to their documented defaults: the spec (what the oracle sees) carries the default value, the constructor
     call (spec[2] = names omitted) does not pass it"""
     d = DEFAULTS.get(name)
@@ -199,6 +205,13 @@ def with_defaults(rng, name, kw):
     omit = [k for k in kw if k in d and rng.random() < 0.6]
     kw = dict(kw)
     for k in omit: kw[k] = d[k]
+    # put the state near the threshold the DEFAULT implies, where a free argument allows it
+    last = view['hist'][-1] if view and view['hist'] else None
+    if last is not None and math.isfinite(last):
+        f = rng.choice([0.5, 0.9, 1.1, 2.0])
+        if name == 'VTR' and 'tolerance' in omit and 'target' not in omit: kw['target'] = last + rng.choice([-1, 1]) * 0.005 * f
+        if name == 'VTRChangeOverGeneration' and 'ftol' in omit and 'target' not in omit: kw['target'] = last + rng.choice([-1, 1]) * 0.005 * f
+        if name == 'NormalizedCostTarget' and 'tolerance' in omit and 'fval' not in omit and last: kw['fval'] = last / (1.0 + rng.choice([-1, 1]) * 1e-6 * f)
     return [name, kw, omit]
 
 
@@ -214,7 +227,7 @@ def build(spec):
 def gen_tree(rng, view, depth):
     if depth <= 0 or rng.random() < 0.35:
         n, kw = gen_primitive(rng, view)
-        return with_defaults(rng, n, kw)
+        return with_defaults(rng, n, kw, view)
     op = rng.choice(['And', 'Or', 'When'])
     if op == 'When':
         return [op, [gen_tree(rng, view, depth - 1)]]
@@ -340,7 +353,7 @@ def run_case(cls, idx, rng, obs):
     obs.desc['state'] = sdesc
     if cls == 'primitive':
         n, kw = gen_primitive(rng, view)
-        spec = with_defaults(rng, n, kw)
+        spec = with_defaults(rng, n, kw, view)
         if len(spec) > 2: obs.event('built_with_default_arguments')
         obs.desc['tree'] = spec
         w = check_tree(obs, s, view, spec, 'primitive')
